@@ -246,7 +246,7 @@ def r1(ctx):
             ctx.ob(key + ":exemption-first", False, "the exemption test is not the first decision / not on the target host", loc)
 
 
-@rule("R-C19-3", min_instances=2, title="which address is dialled: the proxy's (default port 80) iff a proxy applies, then need_tunnel with its credentials")
+@rule("R-C19-3", min_instances=6, title="which address is dialled: the proxy's (default port 80) iff a proxy applies, then need_tunnel with its credentials")
 def r3(ctx):
     q = "_http:_get_addrinfo_list"
     loc = ctx.index.loc(ctx.index.func(q).node)
@@ -278,6 +278,29 @@ def r3(ctx):
                     and o.value == Tup((Sym("addrlist"), FALSE, NONE))
             ok = ok and okp and g[0].args[3] == Ext("socket.SOCK_STREAM")
             ctx.ob(f"{q}:proxy={has_proxy}:pport={pport}", ok, f"getaddrinfo{g[0].args[:2] if g else ()} -> {o.value!r}", loc, {"path": path_text(o)})
+        # the proxy's name does not resolve: with a proxy in force the origin is never dialled directly as a fallback (the decision
+        # "through the proxy" is not revised by a failure) -- the attempt fails
+        def gai_fail(I, run, args, kwargs, node):
+            run.effect("getaddrinfo", args, kwargs, node=node)
+            if I.resolve(run, args[0]) == C("the.proxy"):
+                raise RaiseSig(run.alloc(HObj("socket.gaierror", {"args": Tup(())})), node)
+            return Sym("addrlist")
+        if has_proxy:
+            for opt_host in (NONE, C("the.proxy")):
+                I3 = Interp(ctx.index, Config(stubs={"_url:get_proxy_info": gpi, "socket.getaddrinfo": gai_fail}))
+                def body3(run, opt_host=opt_host):
+                    px = new_obj(run, "_http:proxy_info", "proxy", proxy_host=opt_host, proxy_port=C(pport), auth=Sym("o.pauth"), no_proxy=Sym("o.nop"))
+                    return I3.call(run, I3.make_fn(run, q), [Sym("host", "str"), Sym("port", "int"), Sym("secure", "bool"), px], {}, None)
+                bad = None
+                outs3 = ctx.count_paths(I3.explore(body3))
+                for o in outs3:
+                    direct = [e for e in o.effects if e.name == "getaddrinfo" and I3.resolve(o.run, e.args[0]) != C("the.proxy")]
+                    if o.kind != "raise" or direct:
+                        bad = bad or o
+                ctx.ob(f"{q}:proxy-unresolvable:pport={pport}:proxy-from={'option' if opt_host != NONE else 'environment'}", bad is None and bool(outs3),
+                       "an unresolvable proxy fails the attempt; the origin is not dialled directly" if bad is None else
+                       f"the proxy's name does not resolve and the call ends as {bad.kind} {bad.value!r} after resolving the origin itself: the target is dialled directly although a proxy applies",
+                       loc, {"path": path_text(bad)} if bad else None)
 
 
 @rule("R-C19-4", min_instances=6, title="CONNECT: one write of the template with origin host:port and Basic credentials, proceeds only on 200; tunnel on every need_tunnel path")
